@@ -475,6 +475,15 @@ fn push_wr(w: &mut CaseWriter, level: u8, ending: &str, ops: &[Op]) {
     w.push("wr", args);
 }
 
+fn make_frame(cdata: &[u8], block: &[u8]) -> Vec<u8> {
+    let mut f = gz::EOF_BLOCK[..16].to_vec();
+    f.extend(((18 + cdata.len() + 8 - 1) as u16).to_le_bytes());
+    f.extend_from_slice(cdata);
+    f.extend(gz::crc32(block).to_le_bytes());
+    f.extend((block.len() as u32).to_le_bytes());
+    f
+}
+
 fn eof_frame_with(f: impl Fn(&mut Vec<u8>)) -> Vec<u8> {
     let mut v = gz::EOF_BLOCK.to_vec();
     f(&mut v);
@@ -482,17 +491,21 @@ fn eof_frame_with(f: impl Fn(&mut Vec<u8>)) -> Vec<u8> {
 }
 
 fn gen_rd(rng: &mut Rng, w: &mut CaseWriter, n_random: usize) {
-    // a small well-formed stream: two data blocks, an empty block in the middle, EOF
-    let ops = vec![
-        Op::WriteAll(b"noodles-bgzf C01".to_vec()),
-        Op::Flush,
-        Op::WriteAll(vec![7u8; 40]),
-    ];
-    let x = exec(6, "tfdrop", &ops);
-    let mut base = x.sink.clone();
-    let ops2 = vec![Op::WriteAll(rng.bytes(33))];
-    base.extend(exec(0, "finish", &ops2).sink);
-    let mut table = build_table(6, &base);
+    // a small well-formed stream built WITHOUT noodles (so that generation does not depend on the
+    // implementation under test): two data blocks, an EOF block in the middle, a third block, EOF
+    let blocks: Vec<(u8, Vec<u8>)> = vec![(6, b"noodles-bgzf C01".to_vec()), (6, vec![7u8; 40]), (0, rng.bytes(33))];
+    let mut base = Vec::new();
+    let mut table: Table = Vec::new();
+    for (i, (l, b)) in blocks.iter().enumerate() {
+        let cd = flate2_deflate(*l, b);
+        base.extend(make_frame(&cd, b));
+        table.push((*l, b.clone(), cd));
+        if i == 1 {
+            base.extend(gz::EOF_BLOCK);
+            base.extend(gz::EOF_BLOCK);
+        }
+    }
+    base.extend(gz::EOF_BLOCK);
     table.push((0, vec![], vec![3, 0]));
     let ts = table_str(&table);
     let push = |w: &mut CaseWriter, s: &[u8]| w.push("rd", vec![ts.clone(), hex(s)]);
@@ -572,6 +585,14 @@ fn generate(rng: &mut Rng, tier: &str, w: &mut CaseWriter) {
     for l in 0..=9u8 {
         let p = rng.bytes(MAX_BUF);
         push_wr(w, l, *rng.pick(ENDINGS), &[Op::WriteAll(p)]);
+    }
+    // one incompressible block of n bytes, flushed: zlib-rs' output at levels >= 2 is n + 20 bytes, so
+    // n = 65485..=65495 walks the attempt across the 65510-byte fallback threshold one byte at a time
+    for n in 65485..=MAX_BUF {
+        let level = 2 + (n % 8) as u8;
+        let p = rng.bytes(n);
+        let tail = rng.bytes(3);
+        push_wr(w, level, *rng.pick(ENDINGS), &[Op::WriteAll(p), Op::Flush, Op::Write(tail)]);
     }
     // --- many small cases: level x class x split x ending
     for i in 0..(160 * mul) {
